@@ -532,7 +532,8 @@ def extract(b, raw=False):
     tr.bad_kind = []
     for el in pt.elements:
         d = {'name': el.name, 'cls': type(el).__name__, 'ratio': getattr(el, 'master_gear_ratio', None),
-             'eff': getattr(el, 'master_gear_efficiency', None), 'J': si(el.inertia_moment), 'vars': {}, 'units': {}}
+             'eff': getattr(el, 'master_gear_efficiency', None), 'J': si(el.inertia_moment), 'vars': {}, 'units': {},
+             'role': getattr(getattr(el, 'mating_role', None), '__name__', None)}
         for v, series in el.time_variables.items():
             kind = VAR_KIND.get(v, '?')
             out = []
